@@ -511,7 +511,10 @@ pub fn run_batch<P: Prop>(o: &Opts) -> i32 {
     }
 
     // watchdog: a run that exceeds the wall limit is a hang
-    let limit_ms = P::run_wall_limit_s() * 1000;
+    // (thorough scenarios of the scheduler engine run ten times the executions of quick ones: fifteen times the limit.
+    // A loop without scheduling points inside a worker is out of the step limit's reach, so this watchdog stays the
+    // only hang verdict there, and the quick tier keeps it short)
+    let limit_ms = P::run_wall_limit_s() * 1000 * if o.tier == Tier::Thorough && P::ENGINE == "poolsim" { 15 } else { 1 };
     let mut hung: Option<u64> = None;
     loop {
         let done = handles.iter().all(|h| h.is_finished());
@@ -858,7 +861,8 @@ pub fn replay<P: Prop>(path: &str, rf: &ReplayFile) -> i32 {
             return 2;
         }
     };
-    let limit = Duration::from_secs(P::run_wall_limit_s());
+    // a replay is one scenario, possibly a thorough one: the generous limit
+    let limit = Duration::from_secs(P::run_wall_limit_s() * if P::ENGINE == "poolsim" { 15 } else { 1 });
     let (tx, rx) = std::sync::mpsc::channel();
     let scn2 = scn.clone();
     let prelude: Vec<P::Scn> = rf.prelude.iter().filter_map(|v| serde_json::from_value(v.clone()).ok()).collect();
